@@ -12,6 +12,9 @@
 (*   listidx  for i in range(3): u AOP= l[i] ; u AOP= l[a]                  *)
 (*   swapuse  u, v = E1, E2; u, v = v, u OP v; return u OP v                *)
 (*   ifaug    u = E; if B: u AOP= F else: v-style second variable           *)
+(*   iftest   if <variable>: <variable> = ...; <more assignments> [else ...]  *)
+(*            (the test variable is written inside the statement), take-    *)
+(*            while loops                                                   *)
 (*   opgrid   return a OP b / a OP k / k OP a  for EVERY pair of argument     *)
 (*            widths 2..8 (<= 10 input bits), every arithmetic, bitwise,     *)
 (*            shift and comparison operator, several return widths: the      *)
@@ -99,8 +102,27 @@ FixGrid ==
               \cup {FunDef("f", FSig2(lp[1], lp[2]), <<Ret(Cmp(op, A, B))>>, TBool) : op \in Cmps} : lp \in Layouts \X Layouts}
   \cup UNION {{FunDef("f", FSig1(l), <<Assign("u", A), Aug("u", "Add", k), Ret(IfE(Cmp("Gt", U, k2), U, A))>>, TFix(l[1], l[2])) : k \in Floats, k2 \in {CF(1, 2), CF(3, 2)}} : l \in Layouts}
 
+\* if statements whose TEST VARIABLE is written inside the statement (the branches are guarded by the value the test
+\* had at entry): bare-name tests, argument or local, re-assigned first / last / in the else branch; take-while loops
+G == Name("go")  N == Name("n")
+GoInit == {Cc, Cmp("Gt", A, B), Name("e")}
+GoNext == {Name("e"), Un("Not", G), Cmp("Eq", A, CI(2)), CB(FALSE)}
+Upd == {Aug("n", "Add", CI(1)), Assign("n", B), Aug("n", "BitXor", A)}
+IfTest ==
+  {FunDef("f", SigB, <<Assign("go", g0), Assign("n", CI(0)), If(G, body, els), Ret(N)>>, I4) :
+      g0 \in GoInit, els \in {<<>>, <<Assign("n", A)>>, <<Assign("go", Name("e")), Assign("n", CI(3))>>},
+      body \in UNION {{<<Assign("go", g1), u>>, <<u, Assign("go", g1)>>, <<Assign("go", g1), u, Aug("n", "Add", CI(1))>>} : g1 \in GoNext, u \in Upd}}
+  \cup {FunDef("f", SigB, <<Assign("n", CI(0)), If(Cc, <<Assign("c", g1), u>>, els), Ret(IfE(Cc, N, Bin("Add", N, CI(1))))>>, I4) :
+      g1 \in {Name("e"), Un("Not", Cc), CB(FALSE)}, u \in Upd, els \in {<<>>, <<Assign("n", A)>>}}
+  \cup {FunDef("f", <<Arg("l", TList(TBool, 3)), Arg("a", I2), Arg("c", TBool)>>,
+               <<Assign("go", g0), Assign("n", CI(0)), For("i", Range(3), <<If(G, <<Assign("go", Sub(Name("l"), I)), u>>, <<>>)>>), Ret(N)>>, I4) :
+      g0 \in {Cc, CB(TRUE)}, u \in {Aug("n", "Add", CI(1)), Aug("n", "Add", A)}}
+  \cup {FunDef("f", SigB, <<Assign("go", g0), Assign("v", Name("e")), If(G, <<Assign("go", g1), Assign("v", BoolOpN("And", <<V, G>>))>>, <<Assign("v", Un("Not", V))>>), Ret(BoolOpN("Or", <<V, G>>))>>, TBool) :
+      g0 \in GoInit, g1 \in GoNext}
+
 Pool == CASE Family = "loopif" -> LoopIf [] Family = "elif" -> Elif [] Family = "nested" -> Nested
           [] Family = "listidx" -> ListIdx [] Family = "swapuse" -> SwapUse [] Family = "ifaug" -> IfAug
+          [] Family = "iftest" -> IfTest
           [] Family = "opgrid" -> OpGrid
           [] Family = "fixgrid" -> FixGrid
 Init == p \in Pool
